@@ -18,7 +18,7 @@ from . import c05
 from .c07 import corrupt
 
 PROP = "C18"
-RUNS = {"quick": 6000, "thorough": 400000}
+RUNS = {"quick": 6000, "thorough": 150000}
 WALL = {"quick": 280, "thorough": 3500}
 RULE = ("one run = one of three arms on four replicas (vlevel 0-3); distinct = distinct (arm, op, "
         "outcome vector) tuples x state digest")
